@@ -3,7 +3,7 @@
    them.  Each theorem also pins the meaning of the translated function's parameters (the source
    text of the sub-expressions the translator leaves uninterpreted). *)
 From Coq Require Import String List ZArith Bool Lia.
-From Mux Require Import Model.Bytes Model.Syntax Model.Tree Model.Http Model.Cors Gen.Consts Gen.PureFuns Proofs.PureCors.
+From Mux Require Import Model.Bytes Model.Syntax Model.Tree Model.Http Model.Cors Gen.Consts Gen.PureFuns Proofs.PureCors Proofs.PureMatch.
 Import ListNotations.
 Open Scope string_scope.
 
@@ -51,6 +51,35 @@ Theorem C04_is_auto_is_source :
   forall m, is_auto m = src_is_auto_method (beqb m OPTIONS) (beqb m HEAD) (beqb m M405).
 Proof. split; [reflexivity|]. intros m. reflexivity. Qed.
 Print Assumptions C04_is_auto_is_source.
+
+(* Tree.match, the dispatch decision of the router (TRACE short-circuit; "*" and "" select the root,
+   matchChildren otherwise; nil node or size()==0 -> notFound; a registered method -> its handler;
+   else the node's 405 handler).  src_tree_match (returns mode of the translator) is WHICH return
+   statement of the current source is reached and the text of what it returns; tm_source
+   (Proofs/PureMatch.v) instantiates its atoms with the model's values: "tree.hasTrace" is
+   `ttrace t` being Some, "method == http.MethodTrace" is `beqb method TRACE`, the two ctx.Path tests
+   are `beqb path (bs "*")` and `beqb path []`, "<node> == nil" is match_children answering MNone
+   (false for the root), "<node>.size()" is nsize, "_, exists := <node>.handlers[method]" is the raw
+   `alookup method (nhandlers n)` being Some and "method == methodNotAllowed" is `beqb method M405`
+   (the model's lookup_handler is the conjunction of the last two: PureMatch.tm_lookup_handler).
+   tm_hres maps return 0 to HFound true (Some root) trace ps, 1 to HFound false None notfound ps',
+   2 to HFound true (Some n) h ps', 3 to HFound false (Some n) h405 ps' (HPanic "Handler:nil-405"
+   when the node has no 405 entry: the source returns a nil handler there). *)
+Theorem C05_tree_match_is_source :
+  src_tree_match_atoms =
+    ["tree.hasTrace"; "method == http.MethodTrace"; "ctx.Path == ""*"""; "ctx.Path == """"";
+     "tree.node == nil"; "tree.node.size()"; "_, exists := tree.node.handlers[method]";
+     "method == methodNotAllowed";
+     "tree.node.matchChildren(ctx) == nil"; "tree.node.matchChildren(ctx).size()";
+     "_, exists := tree.node.matchChildren(ctx).handlers[method]"] /\
+  forall t method path ps,
+    (forall s, tm_mres t path ps <> MPanic s) ->     (* fuel exhaustion exists in the model only *)
+    let r := tm_source t method path ps in
+    tree_handler t method path ps = tm_hres t method path ps r /\
+    (0 <= mret_index r <= 3)%Z /\
+    mret_exprs r = tm_exprs (tm_root_path path) (mret_index r).
+Proof. exact tree_match_is_source. Qed.
+Print Assumptions C05_tree_match_is_source.
 
 (* Segment.IsAmbiguous *)
 Theorem C17_is_ambiguous_is_source :
